@@ -1,0 +1,8 @@
+//go:build verif
+
+package kv
+
+// VerifWaitBackground waits until the family's background compaction/rollup goroutines have finished.
+func VerifWaitBackground(f Family) {
+	f.(*family).condition.Wait()
+}
